@@ -324,7 +324,9 @@ theorem flushNumber_good (o : Oracles) {pre : List Char} {st : St} (w : List Cha
   · split
     · exact h.add
     · exact h.here (Nat.le_refl _)
-    · trivial
+    · split
+      · exact h.add
+      · exact h.here (Nat.le_refl _)
   · split
     · exact h.add
     · exact h.here (Nat.le_refl _)
@@ -457,26 +459,28 @@ theorem tokenize_ends_eof (o : Oracles) (text : List Char) (ts : List PTok) (h :
   | fail l e => rw [hrun] at h; cases h
   | missing w => rw [hrun] at h; cases h
 
-/-- `missing` can only come from the float oracle -/
-theorem tokenize_missing (o : Oracles) (text : List Char) (w : List Char) (h : tokenize o text = .missing w) :
-    o.fparse w = .missing := by
-  have flushN : ∀ st w' d, flushNumber o st w' d = .missing w → o.fparse w = .missing := by
+/-- **`missing` never happens**: a number text without a shipped `f64::from_str` fact is converted by
+`DecFloat.parseF64`, so the tokenizer needs no oracle for numbers (before `Model/DecFloat.lean` existed this was
+"`missing` can only come from the float oracle") -/
+theorem tokenize_never_missing (o : Oracles) (text : List Char) (w : List Char) : tokenize o text ≠ .missing w := by
+  intro h
+  have flushN : ∀ st w' d, flushNumber o st w' d = .missing w → False := by
     intro st w' d hh
     unfold flushNumber at hh
     split at hh
     · split at hh
       · cases hh
       · cases hh
-      · rename_i hm; simp only [R.missing.injEq] at hh; subst hh; exact hm
+      · split at hh <;> cases hh
     · split at hh <;> cases hh
-  have flushM : ∀ st, flush o st = .missing w → o.fparse w = .missing := by
+  have flushM : ∀ st, flush o st = .missing w → False := by
     intro st hh
     unfold flush at hh
     split at hh
     · cases hh
     · cases hh
     · exact flushN _ _ _ hh
-  have stepM : ∀ st c, step o st c = .missing w → o.fparse w = .missing := by
+  have stepM : ∀ st c, step o st c = .missing w → False := by
     intro st c hh
     unfold step at hh
     split at hh
@@ -495,7 +499,7 @@ theorem tokenize_missing (o : Oracles) (text : List Char) (w : List Char) (h : t
           | run s => rw [hf] at hh; cases hh
           | fail l e => rw [hf] at hh; cases hh
           | missing w' => rw [hf] at hh; simp only [R.bind_missing, R.missing.injEq] at hh; subst hh; exact flushM _ hf
-  have runM : ∀ (cs : List Char) st, run o st cs = .missing w → o.fparse w = .missing := by
+  have runM : ∀ (cs : List Char) st, run o st cs = .missing w → False := by
     intro cs
     induction cs with
     | nil => intro st hh; cases hh
@@ -517,5 +521,9 @@ theorem tokenize_missing (o : Oracles) (text : List Char) (w : List Char) (h : t
     | missing w' => rw [hf] at h; simp only [R.bind_missing, Result.missing.injEq] at h; subst h; exact flushM _ hf
   | fail l e => rw [hr] at h; cases h
   | missing w' => rw [hr] at h; simp only [R.bind_missing, Result.missing.injEq] at h; subst h; exact runM _ _ hr
+
+/-- (kept for its users) a `missing` result would come from the float oracle — vacuous since `tokenize_never_missing` -/
+theorem tokenize_missing (o : Oracles) (text : List Char) (w : List Char) (h : tokenize o text = .missing w) :
+    o.fparse w = .missing := absurd h (tokenize_never_missing o text w)
 
 end Sqlgrep.Lex
